@@ -162,3 +162,82 @@ def perm_cases(files, count, seed):
         out.append(dict(c, calls=[first] + merged, id="perm-%d-%d" % (seed, len(out)),
                         desc=dict(area="perm", base=c["id"], seed=seed)))
     return out
+
+
+def _parse_byte_arrays(src):
+    """byte-array literals wrapped in AlignedBytes(...) / AlignedBytes::new(...) in Rust test code"""
+    import re
+    out = []
+    for m in re.finditer(r"AlignedBytes(?:::new)?\(\s*\[", src):
+        i = m.end()
+        depth, j = 1, i
+        while j < len(src) and depth:
+            if src[j] == "[":
+                depth += 1
+            elif src[j] == "]":
+                depth -= 1
+            j += 1
+        body = re.sub(r"//[^\n]*|/\*.*?\*/", "", src[i:j - 1], flags=re.S)
+        vals = []
+        ok = True
+        for tok in body.replace("\n", " ").split(","):
+            tok = tok.strip()
+            if not tok:
+                continue
+            tok = re.sub(r"_?u8$", "", tok).replace("_", "")
+            try:
+                v = int(tok, 0)
+            except ValueError:
+                ok = False
+                break
+            if not 0 <= v <= 255:
+                ok = False
+                break
+            vals.append(v)
+        if ok and len(vals) >= 16:
+            out.append(vals)
+    return out
+
+
+def repo_cases(files, count, seed):
+    """The images the repository's own tests parse (GRUB dump, VBE, framebuffer, ELF, EFI, custom tags; header images),
+    extracted from the test sources of the tree under test, each exercised with the full read plan and judged by TLC."""
+    import os, glob
+    repo = os.environ.get("MB2_REPO", "/repo")
+    reads = read_templates(files[0])
+    hreads = {}
+    for line in open(files[1]):
+        c = json.loads(line)
+        for call in c["calls"]:
+            if call.get("op") in ("hget", "hfield"):
+                hreads.setdefault(call["kind"], {})[json.dumps(call, sort_keys=True)] = call
+    imgs = []
+    for path in sorted(glob.glob(repo + "/multiboot2*/src/**/*.rs", recursive=True)):
+        for arr in _parse_byte_arrays(open(path).read()):
+            imgs.append((os.path.relpath(path, repo), arr))
+    out = []
+    for n, (path, arr) in enumerate(imgs):
+        word0 = arr[0] | arr[1] << 8 | arr[2] << 16 | arr[3] << 24
+        if arr[:4] == [0xD6, 0x50, 0x52, 0xE8]:
+            ln = arr[8] | arr[9] << 8 | arr[10] << 16 | arr[11] << 24
+            if ln > len(arr) or arr[4] not in (0, 4) or arr[5:8] != [0, 0, 0]:
+                continue
+            calls = [{"op": "hload"}] + [{"op": "hacc", "f": f} for f in ("header_magic", "arch", "length", "checksum", "verify_checksum")]
+            calls += [{"op": "htags", "it": 0}, {"op": "count", "it": 0}] + [{"op": "next", "it": 0}] * 14
+            for kind in sorted(hreads):
+                calls += list(hreads[kind].values())
+            calls += [{"op": "hdbg", "what": "hdr"}, {"op": "find_header"}]
+            out.append(dict(id="repo-%d" % n, mem=arr[:max(ln, 16)] if ln >= 16 else arr, al=0, calls=calls, desc=dict(area="repo", file=path, n=n, kind="header")))
+        elif 16 <= word0 <= len(arr) and word0 % 8 == 0:
+            mem = arr[:word0]
+            if any(mem[o] == 7 for o in range(8, len(mem) - 8, 8) if mem[o + 1:o + 4] == [0, 0, 0] and mem[o + 4] | mem[o + 5] << 8 == 784) and False:
+                pass
+            calls = [{"op": "load"}, {"op": "tags", "it": 0}, {"op": "count", "it": 0}] + [{"op": "next", "it": 0}] * 30
+            for kind in sorted(reads):
+                calls += reads[kind]
+            calls += [{"op": "module_tags", "it": 1}] + [{"op": "next", "it": 1}] * 4
+            calls += [{"op": "efi_areas", "it": 2}, {"op": "len", "it": 2}] + [{"op": "next", "it": 2}] * 12 + [{"op": "len", "it": 2}]
+            calls += [{"op": "elf_sections", "it": 3}] + [{"op": "next", "it": 3, "names": False}] * 20
+            calls += [{"op": "dbg", "what": "bi"}]
+            out.append(dict(id="repo-%d" % n, mem=mem, al=0, calls=calls, desc=dict(area="repo", file=path, n=n, kind="info")))
+    return out
